@@ -163,6 +163,17 @@ func c02(r *report.Run) {
 			raw = append(raw, "filter("+c+", {# in "+rg+"})", "count("+c+", {# not in "+rg+"})", "all("+c+", {# in "+rg+"})", "map("+c+", {# + 1 in "+rg+"})")
 		}
 	}
+	// a boolean literal next to an operand that fails or is not a bool: folding must keep the operand's evaluation
+	for _, l := range []string{"A[7] > 0", "1 % (I - I) == 0", "X", "S matches \"(\"", "I > 0"} {
+		for _, f := range []string{"%s or true", "%s and false", "%s and true", "%s or false", "true or %s", "false and %s", "true and %s", "false or %s", "not (%s or true)", "(%s or true) ? 1 : 2"} {
+			raw = append(raw, fmt.Sprintf(f, l))
+		}
+	}
+	// nested closures over collections whose element type is a guess at an outer level
+	for _, src := range []string{"any(map(AA, {map(#, {# * 2})}), {any(#, {# in 1..3})})", "map(map(AA, {map(#, {# * 2})}), {filter(#, {# in [1, 2, 3]})})",
+		"all(map([[0.75], [8]], {map(#, {# * 2})}), {all(#, {# not in 1..3})})", "count(map([X], {[# * 2]}), {count(#, {# in 1..3}) > 0})"} {
+		raw = append(raw, src)
+	}
 	// slices of literal arrays (folded into typed constants when optimized) with every pair of bounds, descending ones included
 	for _, arr := range []string{"[1, 2, 3, 4]", `["a", "b", "c"]`, `[1, "b", 3.5]`, "[1]", `"abcd"`, "1..4", "A"} {
 		for _, f := range []string{"", "0", "1", "3", "7", "-1", "I"} {
@@ -198,6 +209,7 @@ func c02(r *report.Run) {
 				env.I64, env.U8, env.I8 = int64(iv), uint8(200), int8(100)
 				env.X = []interface{}{"a b", 1, "1 2"}[vi]
 				env.B = vi == 1
+				env.AA = []interface{}{[]interface{}{0.75}, []interface{}{8}}
 				a, ea := lib.Run(pN, *env)
 				b, eb := lib.Run(pO, *env)
 				rawRuns += 2
@@ -222,7 +234,7 @@ func c02(r *report.Run) {
 	r.Assume("the only compile-time rejection allowed to the optimizer is a constant integer division/modulo by zero; a ConstExpr mark may reject only a call that fails at run time unmarked")
 }
 
-var constExprFns = []string{"Add", "Cat", "Half", "TakesI64", "TakesF64", "IsNil", "MkArr", "Boom", "Sum", "Fast", "TakesAny"}
+var constExprFns = []string{"Add", "Cat", "Half", "TakesI64", "TakesF64", "IsNil", "MkArr", "Boom", "Sum", "Fast", "TakesAny", "TakesF32", "Id"}
 
 // constexpr: calls of functions marked as constant expressions on every literal kind,
 // folded constants and nested const-expr calls.
@@ -235,7 +247,8 @@ func sliceConstExpr() *slice {
 		gen.Bin("+", gen.TStr, gen.TStr, gen.TStr),
 		gen.Call("Add", gen.TInt, gen.TInt, gen.TInt), gen.Call("Cat", gen.TStr, gen.TStr, gen.TStr),
 		gen.Call("Half", gen.TFloat, gen.TFloat), gen.Call("Half", gen.TFloat, gen.TInt),
-		gen.Call("TakesI64", gen.TI64, gen.TInt), gen.Call("TakesF64", gen.TFloat, gen.TInt),
+		gen.Call("TakesI64", gen.TI64, gen.TInt), gen.Call("TakesF64", gen.TFloat, gen.TInt), gen.Call("TakesF32", gen.TF32, gen.TInt), gen.Bin("*", gen.TF32, gen.TInt, gen.TF32), gen.Bin("==", gen.TF32, gen.TF32, gen.TBool),
+		gen.Call("Id", gen.TInt, gen.TInt), gen.Var("O", gen.TObj), gen.Method(gen.TObj, "Id", gen.TInt, false, gen.TInt),
 		gen.Call("IsNil", gen.TBool, gen.TNil), gen.Call("IsNil", gen.TBool, gen.TInt),
 		gen.Call("MkArr", gen.TIntArr, gen.TInt), gen.Call("Boom", gen.TInt, gen.TInt),
 		gen.Call("Sum", gen.TInt), gen.Call("Sum", gen.TInt, gen.TInt), gen.Call("Sum", gen.TInt, gen.TInt, gen.TInt),
